@@ -584,8 +584,9 @@ fn long_codewords(report: &Report) {
                     if st.encode_symbol(s, enc).is_err() || qe.encode_symbol(s, enc).is_err() {
                         bad.push((format!("{wn} | symbol of the codebook refused"), format!("{name}: symbol {s}")));
                     }
-                    longest = longest.max(st.len() - b0);
-                    bits += st.len() - b0;
+                    // (a coder whose length SHRINKS on a write is judged by the order checks below, not by a harness overflow)
+                    longest = longest.max(st.len().saturating_sub(b0));
+                    bits += st.len().saturating_sub(b0);
                     n += 2;
                 }
                 if st.len() != bits || qe.len() != bits {
